@@ -19,11 +19,25 @@ Record end_obs : Type := mkEnd {
   e_hists : list (string * coins)
 }.
 
+(* operations on the real feeprocessing keeper, for whole payment / refund histories of several
+   payers: a fee payment through the keeper's SendCoinsFromAccountToModule, a refund through its
+   SendCoinsFromModuleToAccount, the registration of an execution (optionally marked successful),
+   and the end-of-block ProcessExecutionFeeReturn *)
+Inductive lop : Type :=
+| LPay (payer : string) (fee : coins)
+| LRefund (payer : string) (amt : coins)
+| LExec (ty payer : string) (success : bool)
+| LEnd.
+(* what the real keeper did: 0 ok | 1 error | 3 panic, and the balance changes of the watched accounts *)
+Definition lobs : Type := (Z * list ((string * string) * Z))%type.
+
 Inductive c09_case : Type :=
 | CBlock (c : fcfg) (accts : list (string * (Z * bool))) (bals : list ((string * string) * Z))
          (hists : list (string * coins)) (watch dens : list string)
          (txs : list (tx * tx_obs)) (eo : end_obs)
-| CRefund (ts : list token) (hist amt coll : coins) (class : Z) (paid : coins) (hist_after : coins).
+| CRefund (ts : list token) (hist amt coll : coins) (class : Z) (paid : coins) (hist_after : coins)
+| CLedger (c : fcfg) (bals : list ((string * string) * Z)) (watch dens : list string)
+          (ops : list (lop * lobs)) (hists_after : list (string * coins)).
 
 Fixpoint list_eqb {A B} (e : A -> B -> bool) (l : list A) (m : list B) : bool :=
   match l, m with [], [] => true | x :: l', y :: m' => (e x y && list_eqb e l' m')%bool | _, _ => false end.
@@ -71,6 +85,26 @@ Fixpoint txs_match (c : fcfg) (ws ds : list string) (s : st) (txs : list (tx * t
       then txs_match c ws ds s' r else None
   end.
 
+(* the model on a ledger history; an operation that fails leaves the state unchanged (the
+   harness runs each operation on a branch that is written back only on success) *)
+Definition lop_run (c : fcfg) (s : st) (o : lop) : outcome st :=
+  match o with
+  | LPay p fee => deduct true s p fee
+  | LRefund p amt => refund c s p amt
+  | LExec ty p ok => Ok (set_exec s (s_exec s ++ [(ty, p, ok)]))
+  | LEnd => end_block c s
+  end.
+Fixpoint ledger_match (c : fcfg) (ws ds : list string) (s : st) (ops : list (lop * lobs)) : option st :=
+  match ops with
+  | [] => Some s
+  | (o, (cl, dl)) :: r =>
+      match lop_run c s o with
+      | Ok s' => if ((cl =? 0) && deltas_match s s' ws ds dl)%bool then ledger_match c ws ds s' r else None
+      | Err _ => if ((cl =? 1) && is_nil dl)%bool then ledger_match c ws ds s r else None
+      | Panic _ => if ((cl =? 3) && is_nil dl)%bool then ledger_match c ws ds s r else None
+      end
+  end.
+
 Definition case_matches (k : c09_case) : bool :=
   match k with
   | CBlock c accts bals hists ws ds txs eo =>
@@ -92,6 +126,11 @@ Definition case_matches (k : c09_case) : bool :=
                   && coins_eqb (hist_of s' "r") hist_after)%bool
       | Err _ => class =? 1
       | Panic _ => class =? 3
+      end
+  | CLedger c bals ws ds ops hists_after =>
+      match ledger_match c ws ds (mkSt bals [] [] [] []) ops with
+      | Some s => hists_match s ws hists_after
+      | None => false
       end
   end.
 End Run.
@@ -204,6 +243,34 @@ Definition end_clauses (c : fcfg) (ws ds : list string) (paid : list (string * Z
           let paidw := zsum (map (fun p => if String.eqb (fst p) w then snd p else 0) paid) in
           (forallb (fun d => 0 <=? lookup_bal (e_deltas eo) (w, d)) ds && (got <=? paidw))%bool) ws) "refund_le_paid".
 
+(* GHOST LEDGER.  The checker keeps its own books per (payer, denomination): what the payer
+   actually paid through the keeper (observed balance decrease of a payment that succeeded) and
+   what it actually received back (observed balance increase on refunds and block ends).  It never
+   looks at the payment history the keeper stores.  At every step of the history:
+   cumulative refunds <= cumulative payments. *)
+Definition ghost : Type := list ((string * string) * Z).
+Definition ghost_add (g : ghost) (k : string * string) (v : Z) : ghost := (k, lookup_bal g k + v) :: g.
+Definition ledger_step (ws ds : list string) (paid recv : ghost) (o : lop) (ob : lobs) : ghost * ghost :=
+  let '(cl, dl) := ob in
+  if negb (cl =? 0) then (paid, recv) else
+  match o with
+  | LPay p _ => (fold_left (fun g d => let x := lookup_bal dl (p, d) in if x <? 0 then ghost_add g (p, d) (- x) else g) ds paid, recv)
+  | LExec _ _ _ => (paid, recv)
+  | _ => (paid, fold_left (fun g k => if String.eqb (fst k) collector then g else
+                                      let x := lookup_bal dl k in if 0 <? x then ghost_add g k x else g) (pairs ws ds) recv)
+  end.
+Fixpoint ledger_clauses (ws ds : list string) (paid recv : ghost) (ops : list (lop * lobs)) (i : nat) : list string :=
+  match ops with
+  | [] => []
+  | (o, ob) :: r =>
+      let '(paid', recv') := ledger_step ws ds paid recv o ob in
+      if forallb (fun k => lookup_bal recv' k <=? lookup_bal paid' k) (pairs ws ds)
+      then ledger_clauses ws ds paid' recv' r (S i)
+      else [match o with
+            | LEnd => "refund_le_paid:history:end-block-return-exceeds-cumulative-payments"
+            | _ => "refund_le_paid:history:refund-exceeds-cumulative-payments" end]%string
+  end.
+
 Definition case_clauses (k : c09_case) : list string :=
   match k with
   | CBlock c accts bals hists ws ds txs eo =>
@@ -215,6 +282,7 @@ Definition case_clauses (k : c09_case) : list string :=
                                                            | Some t => snd x * t_rate t | None => 0 end) cs) in
         flag (forallb (fun d => amt_of paid d <=? amt_of hist d) (denoms paid) && (value paid <=? value amt))%bool "refund_le_paid:payback"
       else []
+  | CLedger c bals ws ds ops _ => ledger_clauses ws ds [] [] ops 0
   end.
 
 Fixpoint violations_from (n : nat) (cs : list c09_case) : list (nat * list string) :=
